@@ -422,6 +422,48 @@ def member_sweep(ctx, rng, pairs):
     return traces
 
 
+def shape_across_documents(ctx):
+    """Purity pairs on layers whose box is derived from the canvas of their document (shape layers drawn by a vector mask
+    only): `bbox` read / not read before the layer (or the group holding it) is moved into a document of another size;
+    every later answer must be the same."""
+    from psd_tools import PSDImage
+    from psd_tools.api.layers import Group, ShapeLayer
+    n = 0
+    for name in ("vector-mask.psd", "layers-minimal/shape-layer.psd", "vector-mask2.psd", "note.psd"):
+        f = T.FIX / name
+        if not f.exists():
+            continue
+        for size in ((400, 300), (16, 16)):
+            for wrap in (False, True):
+                answers = []
+                for read in (True, False):
+                    a, b = PSDImage.open(f), PSDImage.new("RGB", size)
+                    shapes = [l for l in a.descendants() if isinstance(l, ShapeLayer)]
+                    if not shapes:
+                        break
+                    l = shapes[0]
+                    mover = Group.group_layers([l], parent=l.parent) if wrap else l
+                    if read:
+                        _ = (l.bbox, mover.bbox, a.bbox)
+                    try:
+                        mover.move_to_group(b)
+                        answers.append((tuple(l.bbox), tuple(mover.bbox), tuple(b.bbox), tuple(l.size)))
+                    except Exception as e:  # noqa
+                        answers.append(("raises", err_class(e)))
+                if len(answers) != 2:
+                    continue
+                n += 1
+                ctx.count(("shape-across", name, size, wrap), nontrivial=True)
+                if answers[0] != answers[1]:
+                    ctx.fail("C14/impure/shape-bbox-across-documents",
+                             "reading bbox before a shape layer is moved into a document of another size changes the later answers",
+                             {"fixture": name, "target_size": list(size), "inside_a_new_group": wrap,
+                              "calls": "shape.bbox [read or not]; move_to_group(PSDImage.new('RGB', size)); shape.bbox, moved.bbox, target.bbox, shape.size"},
+                             observed={"with_read": answers[0], "without_read": answers[1]},
+                             expected="the same answers with and without the earlier read-only call")
+    ctx.extra["shape_across_documents_pairs"] = n
+
+
 def report_stale(ctx, stale):
     """one failure per signature, the history shrunk (ddmin) with the fresh-twin oracle"""
     seen = {}
@@ -564,6 +606,18 @@ def run(ctx: core.Run):
                 probs = D.run(recipe, ops, pixels="auto")
                 if probs:
                     stale.append((recipe, ops, probs, fam))
+    # 3c. the same oracle over the remaining inputs of the clipping relation: blend mode of the base (pass-through or
+    #     not) x compatibility mode, after every edit
+    n_clipin = 0
+    for recipe in [("clips", "RGB", 8), ("nest", "RGB", 8)] + ([] if ctx.quick else [("hid", "RGB", 8), ("clips", "L", 16)]):
+        for fam, ops in D.clip_input_histories(recipe, rng):
+            n_clipin += 1
+            ctx.hist("degenerate_end_states", fam)
+            traces.append(T.run_history(recipe, ops, check_inv=False, check_shadow=False))
+            probs = D.run(recipe, ops, pixels="auto")
+            if probs:
+                stale.append((recipe, ops, probs, fam))
+    ctx.extra["clip_input_histories"] = n_clipin
     n_walk_end = 0
     # (the random walks first, then the visibility x position family, then a seeded sample of the exhaustive family)
     others = traces[i_walks:i_deg] + traces[i_vm:i_walks] + rng.sample(traces[n_corpus:i_vm], min(60, i_vm - n_corpus))
@@ -652,6 +706,7 @@ def run(ctx: core.Run):
             if f["signature"] == sig:
                 f["count"] = dct["count"]
     ctx.extra["purity_cases"] = len(pairs)
+    shape_across_documents(ctx)
     lap("purity")
     for t in traces[:n_corpus] + traces[-2:]:
         ctx.sample({"recipe": list(t.world.recipe), "ops": [T.op_str(o) for o in t.ops[:10]], "outs": t.outs[:10]})
